@@ -171,6 +171,17 @@ def check(name, goal, hints=None):
     ctx.obls.append((name, ctx.hyps(), tm.lift(goal), list(hints or [])))
 
 
+def _explicit_raise_in_repo(e):
+    """the exception left the code under verification through a ``raise`` statement of its own (innermost frame is a file of the
+    tree being verified and the source line is a raise): a non-returning path whatever the exception class is called"""
+    import traceback
+    try:
+        fr = traceback.extract_tb(e.__traceback__)[-1]
+        return os.path.abspath(fr.filename).startswith(os.path.abspath(REPO) + os.sep) and (fr.line or '').strip().startswith('raise')
+    except Exception:
+        return False
+
+
 def explore(run, pre, max_paths=20000, extra_axioms=None, raises=()):
     """run: zero-argument callable executing the function under verification on proxies.
     Yields (ctx, result or None, status) per path."""
@@ -193,7 +204,7 @@ def explore(run, pre, max_paths=20000, extra_axioms=None, raises=()):
             except (Undecided, CheckerError):
                 raise
             except Exception as e:
-                if raises and isinstance(e, tuple(raises)):
+                if raises and (isinstance(e, tuple(raises)) or _explicit_raise_in_repo(e)):
                     # the code under verification raised one of its own exceptions: a path that does not return
                     res, status = e, 'raised'
                     work.extend(ctx.pending)
